@@ -373,6 +373,14 @@ def _c07_runs(tier):
     # one full-utterance call against one streaming call, number of frames only, for every length in the last 170 samples
     for a in ((0, 1) if tier == 'quick' else (0, 1, 2, 3)):
         r.append(dict(h='mc_chunk', label='chunk-a%d-fullutt-framecount' % a, args=['--audio', str(a), '--gram', '0', '--dev', '0', '--fullutt', '1']))
+    # the audio ends exactly on the end of an analysis window (410 + 160 k samples): all-but-the-last-m-samples then those, and uniform chunkings
+    for a in ((1, 2) if tier == 'quick' else (0, 1, 2, 3)):
+        r.append(dict(h='mc_chunk', label='chunk-a%d-window-lastpiece' % a, args=['--audio', str(a), '--gram', '0', '--dev', '0', '--window', '1', '--lastpiece', '1', '--uniform', '1']))
+    # a decoder that has already taken the whole recording in ONE full-utterance call (buffers sized by it stay that size), then a short first call and the rest
+    nsh = 8
+    for i in range(nsh):
+        r.append(dict(h='mc_chunk', label='chunk-a3-after-fullutt-firstcut-shard%d' % i, args=['--audio', '3', '--gram', '0', '--dev', '0' if tier == 'quick' else '1', '--menu', 'small',
+                                                                                                 '--firstcut', '1', '--prefull', '1', '--shard', '%d/%d' % (i, nsh)]))
     if tier == 'thorough':
         for i in range(4):
             r.append(dict(h='mc_chunk', label='chunk-compallsen-shard%d' % i, args=['--audio', '2', '--gram', '0', '--dev', '2', '--menu', 'full',
